@@ -310,7 +310,7 @@ name_set = S.Fold('name_set', SetStr, init=lambda env: EMPTYSET,
                   step=lambda env, acc, f, idx: z3.Store(acc, f, z3.BoolVal(True)))
 
 
-@contract('gemato/recursiveloader.py', 'SubprocessVerifier.__call__', props=['C01', 'C07', 'C18'])
+@contract('gemato/recursiveloader.py', 'SubprocessVerifier.__call__', props=['C01', 'C07', 'C16', 'C18'])
 def _(c):
     c.params(self=SV, vals=TupleT(Str, Str, ListT(Str), SeqT(Str), DictT(Str, PathEntry)))
     c.returns(Bool)
